@@ -205,23 +205,40 @@ Definition rev_move (from to : list (Z * list Z)) : list (Z * list Z) :=
   fold_left (fun acc kv => match zget (fst kv) acc with
                            | Some s => zset (fst kv) (zunion s (snd kv)) acc
                            | None => zset (fst kv) (snd kv) acc end) from to.
-(* merge_delta_to_total_new_to_delta AS WRITTEN: every key of delta is merged against the same key of
-   new and total with the binary merge — and the merged delta of the key is dropped; the keys remaining
-   in new become the delta map *)
-Definition t_merge_keys (newm deltam totalm : list (Z * eqc)) : list (Z * eqc) * list (Z * eqc) :=
+(* merge_delta_to_total_new_to_delta (after the repairs 539a1e3, c6810ff): every key of delta and then every
+   remaining key of new is merged against the same key of new / delta / total (absent = default) with the
+   binary merge, and the merged delta and total of the key are KEPT; the reverse maps accumulate:
+   total.rev := total.rev U delta.rev, delta.rev := total.rev U new.rev, new.rev := {} *)
+Record maps3 := mkM { m_n : list (Z * eqc); m_d : list (Z * eqc); m_t : list (Z * eqc) }.
+Definition t_step_key (st : maps3) (k : Z) : maps3 :=
+  let b := b_merge (mkB (get_or_default k (m_n st)) (get_or_default k (m_d st)) (get_or_default k (m_t st))) in
+  mkM (zrem k (m_n st)) (zset k (b_delta b) (m_d st)) (zset k (b_total b) (m_t st)).
+Definition t_merge_keys_of (newm deltam : list (Z * eqc)) : list Z :=
+  map fst deltam ++ filter (fun k => negb (zmem k (map fst deltam))) (map fst newm).
+Definition t_merge (s : tstate) : tstate :=
+  let st := fold_left t_step_key (t_merge_keys_of (t_map (ts_new s)) (t_map (ts_delta s)))
+                      (mkM (t_map (ts_new s)) (t_map (ts_delta s)) (t_map (ts_total s))) in
+  let trev := rev_move (t_rev (ts_delta s)) (t_rev (ts_total s)) in
+  let drev := rev_move (t_rev (ts_new s)) trev in
+  mkTS (mkT [] []) (mkT (m_d st) drev) (mkT (m_t st) trev).
+(* what generated code does per loop iteration: the merge of the common structure, then the merge of every index
+   write view; all of these are no-ops now (the full index has its own write view type) *)
+Definition t_merge_protocol (s : tstate) : tstate := t_merge s.
+
+(* BEFORE the repairs (kept for the `_before_fix` refutations of Byods/EqRelTernaryBeforeFix.v only): the merged
+   delta of a key was dropped, the keys remaining in new became the delta map, the reverse maps were moved,
+   and the write view of the full index [0,1,2] was the common structure itself, so the merge ran twice *)
+Definition t_merge_keys_old (newm deltam totalm : list (Z * eqc)) : list (Z * eqc) * list (Z * eqc) :=
   fold_left (fun '(nm, tm) kd =>
                let k := fst kd in
                let b := b_merge (mkB (get_or_default k nm) (snd kd) (get_or_default k tm)) in
                (zrem k nm, zset k (b_total b) tm)) deltam (newm, totalm).
-Definition t_merge (s : tstate) : tstate :=
-  let '(nm, tm) := t_merge_keys (t_map (ts_new s)) (t_map (ts_delta s)) (t_map (ts_total s)) in
+Definition t_merge_old (s : tstate) : tstate :=
+  let '(nm, tm) := t_merge_keys_old (t_map (ts_new s)) (t_map (ts_delta s)) (t_map (ts_total s)) in
   let trev := rev_move (t_rev (ts_delta s)) (t_rev (ts_total s)) in
   let drev := rev_move (t_rev (ts_new s)) [] in
   mkTS (mkT [] []) (mkT nm drev) (mkT tm trev).
-(* what generated code does per loop iteration: the merge of the common structure, then the merge of every
-   index write view; the write view of the full index [0,1,2] IS the common structure (&mut EqRel2IndCommon),
-   so the merge runs a second time; the other views are no-ops *)
-Definition t_merge_protocol (s : tstate) : tstate := t_merge (t_merge s).
+Definition t_merge_protocol_old (s : tstate) : tstate := t_merge_old (t_merge_old s).
 Definition t_restart (s : tstate) : tstate := mkTS t_empty (ts_total s) t_empty.
 Definition t_init : tstate := mkTS t_empty t_empty t_empty.
 
@@ -266,8 +283,12 @@ Definition tv_ind12_get (t : eq2) (x y : Z) : option (res (list Z)) :=
                                             end) ks);
             Ok (concat ll))
   end.
-(* iter_all of [1,2]: the cartesian product of the reverse map with itself, values = keys mentioning both *)
+(* iter_all of [1,2]: the cartesian product of the reverse map with itself, values = the keys mentioning both
+   under which the two elements are equivalent (the membership test is repair 187eab3) *)
 Definition tv_ind12_all (t : eq2) : list ((Z * Z) * list Z) :=
+  flat_map (fun a => map (fun b => ((fst a, fst b),
+                                    filter (fun k => zmem k (snd b) && t_contains t k (fst a) (fst b)) (snd a))) (t_rev t)) (t_rev t).
+Definition tv_ind12_all_old (t : eq2) : list ((Z * Z) * list Z) :=
   flat_map (fun a => map (fun b => ((fst a, fst b), filter (fun k => zmem k (snd b)) (snd a))) (t_rev t)) (t_rev t).
 
 Definition t_head (s : tstate) (k x y : Z) : tstate * Z :=
@@ -332,6 +353,14 @@ Definition obs_eq2 (t : eq2) : list Z :=
     do i1all <- tv_ind1_all t;
     Ok ([somemask (fun x => is_some (tv_ind1_get t x)) vals] ++ acc3 (concat i1get)
         ++ acc3 (flat_map (fun e => map (fun ky => (fst ky, fst e, snd ky)) (snd e)) i1all)) in
+  (* [2] is served by the same view as [1] (repair 0f251c7): key = column 2, values (column 0, column 1) *)
+  let i2 :=
+    do i2get <- seq_res (map (fun y => match tv_ind1_get t y with
+                                        | Some r => do l <- r; Ok (map (fun kx => (fst kx, snd kx, y)) l)
+                                        | None => Ok [] end) vals);
+    do i2all <- tv_ind1_all t;
+    Ok ([somemask (fun y => is_some (tv_ind1_get t y)) vals] ++ acc3 (concat i2get)
+        ++ acc3 (flat_map (fun e => map (fun kx => (fst kx, snd kx, fst e)) (snd e)) i2all)) in
   let i01get := flat_map (fun k => flat_map (fun x => match tv_ind01_get t k x with Some ys => map (fun y => (k, x, y)) ys | None => [] end) vals) keys in
   let i01all := flat_map (fun e => map (fun y => (fst (fst e), snd (fst e), y)) (snd e)) (tv_ind01_all t) in
   let i02get := flat_map (fun k => flat_map (fun y => match tv_ind01_get t k y with Some xs => map (fun x => (k, x, y)) xs | None => [] end) vals) keys in
@@ -347,6 +376,7 @@ Definition obs_eq2 (t : eq2) : list Z :=
   firstn (S nk) (acc3 fget) ++ [0%Z] ++ firstn (S nk) (acc3 fck) ++ acc3 fall
   ++ [somemask (fun k => is_some (tv_ind0_get t k)) keys] ++ acc3 i0get ++ acc3 i0all
   ++ or_panic (2 * S nk + 3) i1
+  ++ or_panic (2 * S nk + 3) i2
   ++ kmasks (fun k x => is_some (tv_ind01_get t k x)) ++ acc3 i01get ++ acc3 i01all
   ++ kmasks (fun k x => is_some (tv_ind01_get t k x)) ++ acc3 i02get ++ acc3 i02all
   ++ or_panic (2 * S nk + 3) i12
